@@ -858,6 +858,8 @@ func runBatch(r *lib.Run, mode, kind string, shard, nshards, sampleOneIn int) {
 		sizes := []int{1023, 1024, 1025, 2049}
 		if r.Thorough() {
 			sizes = append(sizes, 2048, 3073)
+		} else if kind == "leveldb2" {
+			sizes = []int{1025, 2049} // a fresh leveldb2 store (8 databases) per probe is the expensive part
 		}
 		for _, n := range sizes {
 			for _, variant := range []string{"delete", "hdelete", "rename", "nested"} {
